@@ -8,11 +8,13 @@ import os
 import random
 import subprocess
 import sys
+import types
 
 sys.path.insert(0, os.path.dirname(os.path.dirname(os.path.abspath(__file__))))
 import common  # noqa: E402
 sys.path.insert(0, os.path.join(common.VERIF, 'tools', 'py2lean'))
 from pytypes import dict_parts, elem, is_dict, is_list, is_opt, is_tuple, opt_inner, tuple_parts  # noqa: E402
+from pytypes import is_rec, rec_parts  # noqa: E402
 
 DRIVER = os.path.join(common.LEAN_DIR, '.lake', 'build', 'bin', 'driver')
 
@@ -45,6 +47,10 @@ def to_wire(v, t):
         if not isinstance(v, datetime.date) or isinstance(v, datetime.datetime):
             raise Mismatch
         return {'date': [v.year, v.month, v.day]}
+    if t == 'module':
+        if not isinstance(v, types.ModuleType):
+            raise Mismatch
+        return v.__name__
     if is_opt(t):
         return None if v is None else to_wire(v, opt_inner(t))
     if is_list(t):
@@ -63,6 +69,11 @@ def to_wire(v, t):
         if not isinstance(v, (tuple, list)) or len(v) != len(ps):
             raise Mismatch
         return {'t': [to_wire(x, p) for x, p in zip(v, ps)]}
+    if is_rec(t):
+        fields = rec_parts(t)
+        if not isinstance(v, dict) or list(v.keys()) != [k for k, _ in fields]:
+            raise Mismatch
+        return {'d': [[to_wire(k, 'str'), to_wire(v[k], ft)] for k, ft in fields]}
     raise Mismatch
 
 
@@ -122,8 +133,36 @@ def gen_strings(rng, modname, fname, pname, n):
     return (head + rest)[:n]
 
 
-def gen_value(rng, t, default, has_default):
-    choices = []
+def literal_hints(pyf):
+    """{parameter name: literals the function compares that parameter with} (so that `format == 'dec'`-style
+    branches are reached)"""
+    import ast
+    import inspect
+    import textwrap
+    out = {}
+    try:
+        tree = ast.parse(textwrap.dedent(inspect.getsource(pyf)))
+    except (OSError, TypeError, SyntaxError):
+        return out
+    glob = getattr(pyf, '__globals__', {})
+    for node in ast.walk(tree):
+        if isinstance(node, ast.Call) and isinstance(node.func, ast.Attribute) and node.func.attr == 'get' and node.args \
+                and isinstance(node.func.value, ast.Name) and isinstance(node.args[0], ast.Name) \
+                and isinstance(glob.get(node.func.value.id), dict):
+            # CONSTANT_DICT.get(param): some keys of the dictionary
+            keys = [k for k in glob[node.func.value.id] if isinstance(k, (str, int)) and not isinstance(k, bool)]
+            out.setdefault(node.args[0].id, []).extend(keys[:6])
+        if isinstance(node, ast.Compare) and isinstance(node.left, ast.Name) and len(node.comparators) == 1:
+            c = node.comparators[0]
+            vals = [c] if isinstance(c, ast.Constant) else (list(c.elts) if isinstance(c, (ast.Tuple, ast.List, ast.Set)) else [])
+            for v in vals:
+                if isinstance(v, ast.Constant) and isinstance(v.value, (str, int)) and not isinstance(v.value, bool):
+                    out.setdefault(node.left.id, []).append(v.value)
+    return out
+
+
+def gen_value(rng, t, default, has_default, hints=()):
+    choices = [h for h in hints if (isinstance(h, str) and t in ('str', 'opt[str]')) or (isinstance(h, int) and t in ('int', 'opt[int]'))]
     if has_default:
         choices.append(default)
     if t == 'bool':
@@ -161,6 +200,13 @@ def plan_cases(rng, man, keys, n_per_func):
             defaults = {p.name: p.default for p in sig.parameters.values() if p.default is not p.empty}
         except (TypeError, ValueError):
             defaults = {}
+        hints = literal_hints(pyf)
+        for p_ in params:
+            # a parameter `region` of a module that publishes `REGIONS`: its members (and near misses) are candidates
+            pub = getattr(mod, p_.upper() + 'S', None)
+            if isinstance(pub, (list, tuple)) and pub and all(isinstance(x, str) for x in pub):
+                hints.setdefault(p_, [])
+                hints[p_] += list(pub) + [pub[0].upper(), pub[-1].lower() + ' ', 'x' + pub[0]]
         firsts = gen_strings(rng, modname, fname, params[0], n_per_func) if ptypes[0] == 'str' else [
             gen_value(rng, ptypes[0], defaults.get(params[0]), params[0] in defaults) for _ in range(min(n_per_func, 8))]
         for i, x in enumerate(firsts):
@@ -170,7 +216,7 @@ def plan_cases(rng, man, keys, n_per_func):
                 if p in defaults and (i % 3 != 2):
                     v = defaults[p]
                 else:
-                    v = gen_value(rng, t, defaults.get(p), p in defaults)
+                    v = gen_value(rng, t, defaults.get(p), p in defaults, hints.get(p, ()))
                     if t == 'str' and p not in defaults:
                         v = rng.choice(gen_strings(rng, modname, fname, p, 6) or [''])
                 try:
@@ -215,7 +261,7 @@ def run(keys=None, n_per_func=60, seed=None, today=None, extra_cases=None, drive
             expect.append(py_response(pyf, args, f['rtype']))
     p = subprocess.run([driver], input='\n'.join(lines) + '\n', capture_output=True, text=True)
     got = p.stdout.split('\n')
-    dis, dist = [], {}
+    dis, dist, perfunc = [], {}, {}
     agree = 0
     accepted = 0
     for (key, pyf, args, f), e, g in zip(cases, expect, got):
@@ -223,6 +269,9 @@ def run(keys=None, n_per_func=60, seed=None, today=None, extra_cases=None, drive
         d = dist.setdefault(key.split(':')[0], {'n': 0, 'ok': 0, 'err': 0})
         d['n'] += 1
         d['ok' if e[0] == 'ok' else 'err'] += 1
+        pf = perfunc.setdefault(key, {})
+        oc = 'ok' if e[0] == 'ok' else (e[1] if e[0] == 'err' else e[0])
+        pf[oc] = pf.get(oc, 0) + 1
         if e[0] == 'ok':
             accepted += 1
         if e == gp:
@@ -232,7 +281,7 @@ def run(keys=None, n_per_func=60, seed=None, today=None, extra_cases=None, drive
     if len(got) < len(cases):
         dis.append({'target': '<driver>', 'args': [], 'python': 'n/a', 'model': 'driver produced %d of %d lines; stderr: %s' % (len(got), len(cases), p.stderr[-300:])})
     return {'evaluations': len(cases), 'agree': agree, 'accepted_by_python': accepted, 'functions': len(set(c[0] for c in cases)),
-            'disagreements': dis, 'distribution': dist,
+            'disagreements': dis, 'distribution': dist, 'per_function': perfunc,
             'samples': lines[:3]}
 
 
@@ -242,6 +291,7 @@ if __name__ == '__main__':
     ap.add_argument('--n', type=int, default=60)
     ap.add_argument('--match', default=None)
     ap.add_argument('--show', type=int, default=30)
+    ap.add_argument('--perfunc', action='store_true', help='print the outcome distribution (python side) per function')
     a = ap.parse_args()
     keys = None
     if a.match:
@@ -252,7 +302,10 @@ if __name__ == '__main__':
     byf = {}
     for d in r['disagreements']:
         byf.setdefault(d['target'], []).append(d)
-    print(json.dumps({k: v for k, v in r.items() if k not in ('disagreements', 'distribution')}, indent=1))
+    print(json.dumps({k: v for k, v in r.items() if k not in ('disagreements', 'distribution', 'per_function')}, indent=1))
+    if a.perfunc:
+        for k, v in sorted(r['per_function'].items()):
+            print('  %-50s %s' % (k, ' '.join('%s=%d' % kv for kv in sorted(v.items()))))
     print('disagreeing functions:', len(byf), 'disagreements:', len(r['disagreements']), 'wall', t.s())
     for k, v in sorted(byf.items(), key=lambda kv: -len(kv[1]))[:a.show]:
         d = v[0]
